@@ -104,6 +104,9 @@ func jobTimeout(j Job) int {
 	if j.Hist != nil && j.Hist.TimeoutMs > 0 {
 		return j.Hist.TimeoutMs
 	}
+	if j.Lib != nil && j.Lib.TimeoutMs > 0 {
+		return j.Lib.TimeoutMs
+	}
 	if j.Stress != nil && j.Stress.TimeoutMs > 0 {
 		return j.Stress.TimeoutMs
 	}
@@ -402,6 +405,31 @@ var totals = map[string]int{}
 func addCase(w *lib.Writer, j Job, r Result) {
 	id := w.NextID()
 	switch j.Kind {
+	case "lib":
+		c := lib.Case{Input: j, KF: j.KF, Class: "lib", Observed: map[string]any{"status": r.Status, "msg": trunc(r.Msg, 800), "lib": r.Lib}}
+		if r.Status == "ok" && r.Lib != nil && r.Lib.Ref != "" {
+			o := r.Lib
+			ds := make([]string, len(o.Obs))
+			for i, d := range o.Obs {
+				ds[i] = coqDigest(d)
+			}
+			c.Coq = fmt.Sprintf("CLib %s %s %d", coqDigest(o.Ref), lib.CoqList(ds), o.Foreign)
+			// the mutator must really have changed what it sees, else the job shows nothing
+			c.Nontrivial = o.MutatorOK && o.Tables >= 10 && len(o.Obs) >= 4
+			totals["lib_tables_mutated"] += o.Tables
+			totals["lib_fingerprint_entries"] = o.Entries
+			if !o.MutatorOK || o.Tables < 10 {
+				w.Add(c)
+				w.GoFail(id, "lib job is vacuous: the mutator state does not see its own changes")
+				return
+			}
+			w.Add(c)
+			return
+		}
+		c.Class += "-" + r.Status
+		c.Coq = failingTerm
+		w.Add(c)
+		w.GoFail(id, "library non-interference run: "+r.Status+": "+trunc(r.Msg, 1200))
 	case "stress":
 		c := lib.Case{Input: j, KF: j.KF, Class: "stress", Observed: map[string]any{"status": r.Status, "msg": trunc(r.Msg, 800), "stress": r.Stress}}
 		if r.Status == "ok" && r.Stress != nil {
